@@ -170,9 +170,13 @@ func (s *StackSet) makeInitialStacks(rpt *Report) {
 		// Note: we need to reverse the order in the produced stack.
 		for i := len(sample.Location) - 1; i >= 0; i-- {
 			loc := sample.Location[i]
-			for j := len(loc.Line) - 1; j >= 0; j-- {
-				line := loc.Line[j]
-				inlined := (j != len(loc.Line)-1)
+			lines := loc.Line
+			if len(lines) == 0 {
+				lines = []profile.Line{{}} // Keep a frame for unsymbolized locations.
+			}
+			for j := len(lines) - 1; j >= 0; j-- {
+				line := lines[j]
+				inlined := (j != len(lines)-1)
 				stack.Sources = append(stack.Sources, getSrc(line, inlined))
 			}
 		}
